@@ -71,6 +71,25 @@ pub fn monitor(out: &RunOut) -> MonOut {
                     .map(|(i, _)| *i)
                     .unwrap_or(c.end);
                 let got: Vec<u32> = c.events.iter().filter(|(i, _)| *i < outcome_idx).filter_map(|(_, e)| if let EventRec::Progress(v) = e { Some(*v) } else { None }).collect();
+                // back-pressure on progress: the installer's k-th report returns when the state machine
+                // has picked it up, which it does only after the observer took the (k-1)-th value
+                // (reports that were cancelled or started in pairs are left out)
+                {
+                    let sent_idx: Vec<usize> = (c.start..c.end).filter(|i| matches!(h[*i].kind, Kind::Installer(InstallerRec::ProgressSent { .. }))).collect();
+                    let ret_idx: Vec<usize> = (c.start..c.end).filter(|i| matches!(h[*i].kind, Kind::Installer(InstallerRec::ProgressReturned { .. }))).collect();
+                    let taken_idx: Vec<usize> = c.events.iter().filter(|(_, e)| matches!(e, EventRec::Progress(_))).map(|(i, _)| *i).collect();
+                    let plain = sent_idx.len() == ret_idx.len() && sent_idx.iter().zip(ret_idx.iter()).all(|(s, r)| s < r) && sent_idx.windows(2).zip(ret_idx.iter()).all(|(w, r)| *r < w[1]);
+                    let cancelled = out.stats.get("embedder.progress_report_cancelled").copied().unwrap_or(0) > 0;
+                    if plain && !cancelled {
+                        for k in 1..ret_idx.len() {
+                            m.count("R2.progress_reports_after_the_previous_was_taken");
+                            if taken_idx.get(k - 1).map(|t| *t > ret_idx[k]).unwrap_or(true) {
+                                m.viol(p, "R2", &site, format!("progress report #{} returned to the installer before the observer had taken value #{}", k + 1, k));
+                                break;
+                            }
+                        }
+                    }
+                }
                 let done = (c.start..c.end).any(|i| matches!(h[i].kind, Kind::Installer(InstallerRec::InstallDone { .. })));
                 if done && c.complete {
                     m.count("R1.progress_sequences");
